@@ -1,3 +1,5 @@
 -- Root of the FeedVerif library: every model driver and every property file.
 import FeedVerif.Model.DictDriver
 import FeedVerif.Props.C15
+import FeedVerif.Model.UriDriver
+import FeedVerif.Props.C04
